@@ -671,9 +671,11 @@ class KmipEngine(object):
         elif attr_name == 'Object Type':
             return managed_object.object_type
         elif attr_name == 'Cryptographic Algorithm':
-            return managed_object.cryptographic_algorithm
+            # Not every object type the attribute applies to stores it
+            # (e.g., certificates).
+            return getattr(managed_object, 'cryptographic_algorithm', None)
         elif attr_name == 'Cryptographic Length':
-            return managed_object.cryptographic_length
+            return getattr(managed_object, 'cryptographic_length', None)
         elif attr_name == 'Cryptographic Parameters':
             return None
         elif attr_name == 'Cryptographic Domain Parameters':
@@ -2254,6 +2256,14 @@ class KmipEngine(object):
                         name
                     )
                     if attribute is None:
+                        if name in (
+                            "Cryptographic Algorithm",
+                            "Cryptographic Length"
+                        ):
+                            # The object does not have the attribute, so it
+                            # cannot match the requested value.
+                            add_object = False
+                            break
                         continue
                     elif name == "Application Specific Information":
                         application_namespace = value.application_namespace
